@@ -22,6 +22,7 @@ def jobs(tier):
         mk('C03', 'child/yield_await', S.child('yield_await', k=0, actor=False), witnesses=W),
         mk('C03', 'child/raising', S.child('await', k=0, raising='child', actor=False), witnesses=W),
         mk('C03', 'late_grandchild', S.late_grandchild(), witnesses=W),
+        mk('C03', 'deep_ff_chain', S.deep_ff_chain(), witnesses=W),
         mk('C03', 'recur/await', S.recur('await', 4)),
         mk('C03', 'recur/ff', S.recur('ff', 4)),
         mk('C03', 'x2/other_fresh', S.two_bus_await('other_fresh', ('A', 'B'), yield_first=False), witnesses=W),
